@@ -3,4 +3,4 @@ import exch
 
 
 def run(res, tier, seed, replay):
-    return exch.run_property(res, "C18", tier, seed, replay, ["C18"])
+    return exch.run_property(res, "C18", tier, seed, replay, ["C18", "C18history"])
